@@ -485,11 +485,14 @@ impl Hist {
                             _ => Some(vec![f64::NAN]),
                         };
                         let fresh_i = fg[i].as_ref().map(|x| x.1.clone());
+                        let is_leaf = matches!(p.nodes[i], Node::Leaf { .. });
                         let same = match (&inc, &fresh_i) {
                             (None, None) => true,
                             (Some(a), None) => a.iter().all(|x| *x == 0.0) && before[i].is_some(),
                             (Some(a), Some(b)) => a == b,
-                            (None, Some(_)) => false,
+                            // an intermediate that keeps no gradient here but does on the fresh instance (or vice versa)
+                            // would be a dependence on history only for arrays that must store: leaves
+                            (None, Some(_)) => !is_leaf,
                         };
                         if !same {
                             self.fail(
@@ -520,7 +523,17 @@ impl Hist {
             match (&g, &self.slot[b]) {
                 (None, None) => {}
                 (Some((gd, gv)), None) => fails.push(("gradient-unexpected".into(), format!("n{} holds gradient dims {:?} values {} but no pass since the last clear delivered to it", i, gd, short(gv)))),
-                (None, Some(s)) => fails.push(("gradient-missing".into(), format!("n{} holds no gradient but {} contribution(s) were due: {}", i, s.contributions, short(&s.v)))),
+                (None, Some(s)) => {
+                    // presence is required of leaves and of explicitly tracked() results; whether other intermediates
+                    // keep their gradient is the library's choice (if they do, it must be the right sum)
+                    let must = match &self.st.p.nodes[b] {
+                        Node::Leaf { .. } => true,
+                        Node::Op { post, .. } => *post == Some(true),
+                    };
+                    if must {
+                        fails.push(("gradient-missing".into(), format!("n{} holds no gradient but {} contribution(s) were due: {}", i, s.contributions, short(&s.v))));
+                    }
+                }
                 (Some((gd, gv)), Some(s)) => {
                     if gd != &self.st.refv[b].dims {
                         fails.push(("gradient-dims".into(), format!("n{} gradient dims {:?}, array dims {:?}", i, gd, self.st.refv[b].dims)));
